@@ -233,11 +233,33 @@ func generatedClasses(r *Rng) map[string][]byte {
 	return out
 }
 
-func probeProgram(r *Rng, cfg map[string][]byte) []byte {
+// hasOverloads reports whether a class file declares one method name more than once.
+func hasOverloads(cf classFile) bool {
+	return len(groupsOf(cf, true)) > len(groupsOf(cf, false))
+}
+
+func probeProgram(r *Rng, cfg map[string][]byte, focus map[string]bool) []byte {
 	bs := builtinsOf(cfg)
+	// methods of the classes whose declarations were fragmented, overloaded ones first
+	var fbs []BuiltinMethod
+	count := map[string]int{}
+	for _, b := range bs {
+		count[b.Class+"|"+b.Name]++
+	}
+	for _, b := range bs {
+		if focus[b.Class] {
+			fbs = append(fbs, b)
+			if count[b.Class+"|"+b.Name] > 1 {
+				fbs = append(fbs, b, b)
+			}
+		}
+	}
 	var sb strings.Builder
 	for k := 0; k < r.Range(6, 16) && len(bs) > 0; k++ {
 		g := &Gen{r: r, builtins: bs}
+		if len(fbs) > 0 && r.Chance(1, 2) {
+			g.builtins = fbs
+		}
 		sb.WriteString("v" + fmt.Sprint(k) + " = " + g.builtinCall() + "\n")
 		if r.Chance(1, 2) {
 			sb.WriteString("v" + fmt.Sprint(k) + "." + r.Pick([]string{"to_s", "size", "alpha", "beta", "name", "zork"}) + "\n")
@@ -291,12 +313,28 @@ func (o *cfgLayout) Make(c *Ctx, i int) *Case {
 	if !r.Chance(1, 4) {
 		nsplit = r.Range(1, 6)
 	}
+	var withOver []classFile
+	for _, cf := range cfs {
+		if cf.Obj != nil && hasOverloads(cf) {
+			withOver = append(withOver, cf)
+		}
+	}
+	focus := map[string]bool{}
 	for s := 0; s < nsplit; s++ {
 		cf := cfs[r.Intn(len(cfs))]
+		if len(withOver) > 0 && r.Chance(1, 2) {
+			cf = withOver[r.Intn(len(withOver))]
+		}
 		if cf.Obj == nil {
 			continue
 		}
-		over := r.Chance(1, 3)
+		if _, done := spec.Splits[cf.Name]; done {
+			continue
+		}
+		var cn string
+		json.Unmarshal(cf.Obj["class"], &cn)
+		focus[cn] = true
+		over := r.Chance(1, 3) || (hasOverloads(cf) && r.Chance(1, 2))
 		g := groupsOf(cf, over)
 		if len(g) < 2 {
 			continue
@@ -373,7 +411,7 @@ func (o *cfgLayout) Make(c *Ctx, i int) *Case {
 		var src []byte
 		var origin string
 		if p%3 == 2 {
-			src, origin = probeProgram(r, canon), "probe"
+			src, origin = probeProgram(r, canon, focus), "probe"
 		} else {
 			pr := c.Corpus[r.Intn(len(c.Corpus))]
 			src, origin = pr.Src, "corpus:"+pr.Name
